@@ -131,7 +131,7 @@ def oracle(a, b, obs):
 
 def main():
     ck = Check('C06')
-    ck.build_theories()
+    ck.build_theories(['theories/Props/C06.vo', 'theories/Corr/TimeK.vo'])
     rep = gen_time.main(REPO, os.path.join(ck.rundir, 'TimeGen.v'))
     ck.gen('TimeGen.v', rep, 'TimeGenEq.v')
     ck.props('Props/C06.v')
